@@ -212,3 +212,55 @@ def call_blocks_incl_closures(fa, b, pred):
                 out.append(i)
                 break
     return out
+
+
+def sign_edges(b, param):
+    """CFG edges on which the integer parameter `param` is known to be negative / positive, whatever the idiom:
+    `param.cmp(&0)` matched on Ordering (Less / Greater arms) or `param < 0`, `param > 0`, `0 > param`, `param >= 1`,
+    `param <= -1`.  Returns {"neg": [edges], "pos": [edges]}."""
+    out = {"neg": [], "pos": []}
+    # comparisons with the constant zero (or +-1 for the non-strict forms)
+    for bi, st in cfg.assigns(b):
+        r = st["r"]
+        if r["k"] != "bin" or r["op"] not in ("Lt", "Le", "Gt", "Ge") or len(st["l"]) != 1:
+            continue
+        ca, cb = cfg.op_const(r["a"]), cfg.op_const(r["b"])
+        oa, ob = cfg.op_origin(b, r["a"]), cfg.op_origin(b, r["b"])
+        if cb is not None and oa and oa[0] == param and not oa[1]:
+            c, op = cb.get("v"), r["op"]
+        elif ca is not None and ob and ob[0] == param and not ob[1]:
+            c, op = ca.get("v"), {"Lt": "Gt", "Gt": "Lt", "Le": "Ge", "Ge": "Le"}[r["op"]]
+        else:
+            continue
+        # relation `param op c`
+        when_true = {("Lt", 0): "neg", ("Le", -1): "neg", ("Gt", 0): "pos", ("Ge", 1): "pos"}.get((op, c))
+        when_false = {("Ge", 0): "neg", ("Gt", -1): "neg", ("Le", 0): "pos", ("Lt", 1): "pos"}.get((op, c))
+        for sw in cfg.bool_switches(b, cfg.derived_locals(b, [st["l"][0]])):
+            if when_true:
+                out[when_true].append(sw["true_edge"])
+            if when_false:
+                out[when_false].append(sw["false_edge"])
+    # param.cmp(&0) matched on the Ordering
+    for i, t in cfg.calls(b):
+        if not (cfg.callee_decl(t) or cfg.callee(t) or "").endswith("Ord::cmp") or len(t["a"]) < 2:
+            continue
+        o0 = cfg.op_origin(b, t["a"][0])
+        if not (o0 and o0[0] == param and not o0[1]):
+            continue
+        der = cfg.derived_locals(b, [t["d"][0]])
+        for j, blk in enumerate(b.blocks):
+            tt = blk["term"]
+            if tt["k"] != "switch":
+                continue
+            pl = cfg.op_place(tt["d"])
+            ds = cfg.defs(b).get(pl[0], []) if pl else []
+            if ds and ds[0][0] == "assign" and ds[0][2]["k"] == "discr" and ds[0][2]["p"][0] in der:
+                names = dict((v, n) for v, n in ds[0][2].get("variants", []))
+                tg = dict((v, tb) for v, tb in tt["ts"])
+                for v, n in names.items():
+                    tb = tg.get(v, tt.get("else"))
+                    if n == "Less":
+                        out["neg"].append((j, tb))
+                    elif n == "Greater":
+                        out["pos"].append((j, tb))
+    return out
